@@ -110,6 +110,9 @@ def part_flavours():
     F['alters_filters'] = ([">>> import warnings", ">>> warnings.simplefilter('error'); warnings.filterwarnings('ignore', 'xyz'); print('f')"], [], 'f\n')
     F['alters_showwarning'] = ([">>> import warnings", ">>> warnings.showwarning = lambda *a, **k: None", ">>> print('s')"], [], 's\n')
     F['awaits'] = ([">>> import asyncio", ">>> await asyncio.sleep(0)", ">>> print('aw')"], [], 'aw\n')
+    # the body closes the stream it finds in sys.stdout (the capture stream): the run ends with the ValueError of the next write
+    F['closes_stdout'] = ([">>> import sys", ">>> sys.stdout.close()"], [], None)
+    F['with_stdout'] = ([">>> import sys", ">>> with sys.stdout:", "...     sys.stdout.write('')"], [], None)
     F['writes_stderr'] = ([">>> import sys", ">>> sys.stderr.write('')", ">>> print('e')"], [], '0\ne\n' if False else None)
     return F
 
@@ -174,9 +177,10 @@ def run_matrix_case(case):
     try:
         s = ex.run(on_error=on_error, verbose=0)
         outcome = 'summary:%s' % ('passed' if s['passed'] else 'failed' if s['failed'] else 'skipped')
+        after = snapshot()
     except BaseException as e:      # noqa
         outcome = 'raised:' + type(e).__name__
-    after = snapshot()
+        after = snapshot()          # while the exception (and every frame it references) is still alive
     problems = compare(before, after)
     # put things back so that one failing case does not poison the next
     sys.stdout, sys.stderr = before['stdout'], before['stderr']
@@ -359,7 +363,7 @@ def run(ctx):
             break
     import_cases(ctx)
     ctx.add_rule('PythonPathContext: seeded sys.path lists x index in {-1,0,1,2,-2,len,-(len+1)} x 11 body manipulations vs model; '
-                 'DocTest.run: 7 body flavours (prints, replaces sys.stdout with/without restoring, alters warning filters / showwarning, awaits, touches stderr) x '
+                 'DocTest.run: 9 body flavours (prints, replaces sys.stdout with/without restoring, closes the stream found in sys.stdout directly or through `with`, alters warning filters / showwarning, awaits, touches stderr) x '
                  '10 endings (pass, mismatch, exception, expected exception, ExitTestException, pytest.skip, skipped tail, SystemExit, KeyboardInterrupt, compile error) '
                  'x position x on_error; import_module_from_path and the doctest pre-import on 7 module kinds (incl. modules that rearrange sys.path) x index; '
                  'non-trivial = case where something is altered or raised')
@@ -378,9 +382,11 @@ def replay(path):
         before = snapshot()
         try:
             ex.run(on_error=d.get('on_error', 'return'), verbose=0)
+            after = snapshot()
         except BaseException as e:      # noqa
             print('raised', type(e).__name__)
-        problems = compare(before, snapshot())
+            after = snapshot()
+        problems = compare(before, after)
         sys.stdout = before['stdout']
         print('problems=%r' % problems)
         if problems:
